@@ -108,6 +108,19 @@ def describe_pauli(c):
     return {"mode": c["mode"], "n": c["n"], "nterms": len(c["terms"])}
 
 
+def gen_state_inner(ctx):
+    rng = ctx.rng
+    out = []
+    for n1, n2 in ([(1, 2), (3, 3), (3, 4), (4, 4), (2, 7), (5, 5), (6, 5)] if not ctx.thorough() else [(1, 2), (3, 3), (3, 4), (4, 4), (2, 7), (5, 5), (6, 5), (6, 6), (7, 6)]):
+        out.append({"op": "state", "mode": "tensor", "a": {"n": n1, "v": rand_vec(rng, n1, "normalised")}, "b": {"n": n2, "v": rand_vec(rng, n2, "normalised")}})
+    for n in ([3, 6, 7, 8, 10, 11] if not ctx.thorough() else [3, 6, 7, 8, 10, 11, 12, 13]):
+        for _ in range(3):
+            out.append({"op": "state", "mode": "inner", "a": {"n": n, "v": rand_vec(rng, n, "generic")}, "b": {"n": n, "v": rand_vec(rng, n, "generic")}})
+            out.append({"op": "state", "mode": "ctor", "kind": "new", "v": rand_vec(rng, n, "normalised"), "args": []})
+    return out
+def describe_state(c):
+    return {"mode": c["mode"], "n": [c[k]["n"] for k in ("a", "b") if k in c]}
+
 def lattice_family(ctx, stats):
     """Hamiltonian construction: the same builder call under pools of different sizes must return the same SumOp
     (same terms, same order, same coefficient bits; factor order inside a term is canonicalised - it is a HashMap)"""
@@ -170,6 +183,7 @@ def run(ctx):
     fam = {}
     sched_family(ctx, "pauli/sumop apply + expectation", gen_pauli_inner(ctx), fam, describe_pauli)
     lattice_family(ctx, fam)
+    sched_family(ctx, "tensor product / inner product / State::new norm check", gen_state_inner(ctx), fam, describe_state)
     ctx.broken = ctx.broken[:5]
     by = {}
     for c in cases:
